@@ -399,6 +399,13 @@ func emitSites(p *pkg, server *pkg, out string) {
 			case *ast.DeferStmt:
 				if bufName != "" && p.src(n.Call) == "saveBuffer("+bufName+")" {
 					defers++
+					return false // the deferred call itself is not an early release
+				}
+			case *ast.CallExpr:
+				// a saveBuffer call that is not the deferred one hands the buffer back while the function still runs
+				// (and the deferred call will hand it back a second time): counted as an escape
+				if bufName != "" && p.src(n) == "saveBuffer("+bufName+")" {
+					escapes++
 				}
 			case *ast.ReturnStmt:
 				for _, r := range n.Results {
